@@ -26,6 +26,12 @@ func main() {
 		runK1(r, n)
 	case "k2":
 		runK2(r, n)
+	case "kver":
+		runKver(r, n)
+	case "kchunk":
+		runKchunk(r, n)
+	case "kneg":
+		runKneg(r, n)
 	default:
 		fmt.Fprintln(os.Stderr, "unknown mode", mode)
 		os.Exit(2)
